@@ -130,6 +130,35 @@ def k_interleave(name, mode, n, seed, hist=1):
     return b
 
 
+def k_clone_any(name, n, hist):
+    """clone after a history of EVERY f64 bit pattern (NaN, inf), then the same continuation on both: bit-identical outputs (comparison-only indicators)"""
+    b = KB('c05_cloneany_%s_n%d_h%d' % (name.lower(), n, hist), unwind=n + 3,
+           family='K:C05 %s n=%d: clone after %d arbitrary-f64 inputs (NaN/inf included), same arbitrary continuation on both -> identical outputs' % (name, n, hist),
+           bounds=dict(engine='K', indicator=name, n=n, history='%d inputs, every f64 bit pattern' % hist, continuation='%d inputs, every f64 bit pattern' % (n + 1)))
+    k = KOps(b)
+    k.new('a', name, [n])
+    for i in range(hist): k.feed('a', 'scalar', 'any', 'h%d' % i)
+    k.clone('a', 'c')
+    pairs = []
+    for i in range(n + 1):
+        x = b.anyf('x%d' % i)
+        oa = k.feed('a', 'scalar', ('var', x, ('sym', 'x%d' % i))); oc = k.feed('c', 'scalar', ('var', x, ('sym', 'x%d' % i)))
+        b.emit('assert!(same(%s, %s), "clone diverges from the original");' % (oa, oc))
+
+    def confirm(vals):
+        ops = k.concrete(vals)
+        for prof in ('dev', 'release'):
+            lines, outs = kani.native_ops(ops, prof)
+            xa = [o for op, o in zip(ops, outs) if op[0] == 'feed' and op[1] == 'a'][hist:]
+            xc = [o for op, o in zip(ops, outs) if op[0] == 'feed' and op[1] == 'c']
+            for i, (p_, q_) in enumerate(zip(xa, xc)):
+                if p_ == 'panic' or q_ == 'panic' or not all(kani.same_f(u, v) for u, v in zip(p_, q_)):
+                    return True, lines, '%s(%d): after the clone, step %d: original %r, clone %r (%s)' % (name, n, i + 1, p_, q_, prof)
+        return False, lines, 'native outputs agree'
+    b.confirm = confirm
+    return b
+
+
 def k_bytes(name, mode, n):
     """every f64: clone has the same serialized state; stepping the original leaves the clone's and an unrelated instance's state untouched"""
     per = specs(name, n)
@@ -208,6 +237,9 @@ def main(chk):
         n = 1 if IND[name]['np'] == 0 else 2
         hs.append(k_interleave(name, mode, n, chk.seed))
         if IND[name]['np'] and name in ('SMA', 'ROC', 'MIN', 'ER', 'WMA'): hs.append(k_interleave(name, mode, n, chk.seed, hist=n))
+    for nm in ('MIN', 'MAX'):
+        for n, hist in ((2, 1), (3, 2), (3, 3)) if q else ((2, 1), (2, 2), (3, 1), (3, 2), (3, 3), (4, 3)):
+            hs.append(k_clone_any(nm, n, hist))
     for name in ALL:
         if name in ('CE', 'SLOW_STOCH'): continue
         mode = 'scalar' if IND[name]['scalar'] else 'bar'
